@@ -33,17 +33,19 @@ pub mod io {
 pub struct PathBuf { pub of: Seq<char>, pub filler: u8 }
 pub struct File { pub of: Seq<char>, pub filler: u8 }
 impl File { #[verifier::external_body] pub fn open(p: &PathBuf) -> (r: io::Result<File>) ensures r matches Ok(f) ==> f.of == p.of { unimplemented!() } }
-pub struct BufReader { pub filler: u8 }
+pub uninterp spec fn file_lines(of: Seq<char>) -> Seq<io::Result<String>>;
+pub struct BufReader { pub of: Seq<char>, pub filler: u8 }
 impl BufReader {
-    #[verifier::external_body] pub fn new(f: File) -> BufReader { unimplemented!() }
-    #[verifier::external_body] pub fn lines(self) -> Vec<io::Result<String>> { unimplemented!() }        // R7 (owned call form): the lines as a sequence
+    #[verifier::external_body] pub fn new(f: File) -> (r: BufReader) ensures r.of == f.of { unimplemented!() }
+    #[verifier::external_body] pub fn lines(self) -> (r: Vec<io::Result<String>>) ensures r@ == file_lines(self.of) { unimplemented!() }        // R7 (owned call form): the lines as a sequence
 }
 #[verifier::external_body] pub fn vline(l: &io::Result<String>) -> io::Result<&String> { unimplemented!() }     // `line?` on a borrowed item
 pub mod vjson {
     use super::*;
     verus! {
     pub struct Error { pub filler: u8 }
-    #[verifier::external_body] pub fn from_str<T>(s: &str) -> Result<T, Error> { unimplemented!() }
+    pub uninterp spec fn decodes_to<T>(s: Seq<char>, v: T) -> bool;
+    #[verifier::external_body] pub fn from_str<T>(s: &str) -> (r: Result<T, Error>) ensures r matches Ok(v) ==> decodes_to(s@, v) { unimplemented!() }
     } // verus!
 }
 #[derive(PartialEq, Eq, Clone, Copy, Structural)]
@@ -98,6 +100,46 @@ pub broadcast proof fn axiom_refstr_eq_refstr_obeys<'a, 'b>()
     ensures #[trigger] <&'a str as vstd::std_specs::cmp::PartialEqSpec<&'b str>>::obeys_eq_spec(),
 {}
 pub open spec fn min(a: int, b: int) -> int { if a <= b { a } else { b } }
+
+// ---- the checkpoint index (compaction_checkpoint_index.rs) is served only whole ---------------------------------------------------
+//@@ item crates/ripd/src/compaction_checkpoint_index.rs const COMPACTION_CHECKPOINT_INDEX_VERSION_V1
+//@@ item crates/ripd/src/compaction_checkpoint_index.rs struct CompactionCheckpointIndexEntryV1 dropderive=Clone
+pub uninterp spec fn blank(s: Seq<char>) -> bool;
+#[verifier::external_body] pub fn vis_blank(l: &String) -> (r: bool) ensures r == blank(l@) { unimplemented!() }      // `line.trim().is_empty()`
+#[verifier::external_body] pub fn vline_ok(l: &io::Result<String>) -> (r: io::Result<&String>) ensures r matches Ok(s) ==> *l matches Ok(t) && t == *s, r is Err ==> *l is Err { unimplemented!() }
+// every line of the file is accounted for: a blank line contributes nothing, every other line decodes to exactly the next entry
+pub open spec fn accounted(ls: Seq<io::Result<String>>, es: Seq<CompactionCheckpointIndexEntryV1>) -> bool
+    decreases ls.len()
+{
+    if ls.len() == 0 { es.len() == 0 } else { match ls.last() {
+        Err(_) => false,
+        Ok(l) => if blank(l@) { accounted(ls.drop_last(), es) } else {
+            es.len() > 0 && vjson::decodes_to(l@, es.last()) && es.last().version == COMPACTION_CHECKPOINT_INDEX_VERSION_V1 && accounted(ls.drop_last(), es.drop_last()) },
+    } }
+}
+
+//@@ fn crates/ripd/src/compaction_checkpoint_index.rs load_index_v1 r7=0
+//@@ rewrite let line = line?; ==>> let line = vline_ok(line)?;
+//@@ rewrite line.trim().is_empty() ==>> vis_blank(line)
+//@@ alias serde_json::from_str vjson::from_str
+//@@ sig
+    ensures
+        ret matches Ok(Some(es)) ==> es@.len() > 0 && accounted(file_lines(path.of), es@)      // [checkpoint_index.served_only_whole_every_line_decodes_to_the_next_entry]
+            && forall|i: int, j: int| 0 <= i < j < es@.len() ==> es@[i].seq <= es@[j].seq,      // [checkpoint_index.entries_are_in_seq_order]
+//@@ loop 0
+    invariant __i0 <= __s0.len(), __s0@ == file_lines(path.of),
+        accounted(__s0@.take(__i0 as int), entries@),      // [checkpoint_index.every_line_so_far_is_accounted_for]
+        forall|i: int, j: int| 0 <= i < j < entries@.len() ==> entries@[i].seq <= entries@[j].seq,
+        entries@.len() > 0 ==> last_seq == Some(entries@.last().seq), entries@.len() == 0 ==> last_seq is None,
+    decreases __s0.len() - __i0
+//@@ loopbody 0
+    let ghost e0 = entries@;
+    proof { assert(__s0@.take(__i0 as int).drop_last() =~= __s0@.take(__i0 as int - 1)); }
+//@@ loopend 0
+    proof { assert(entries@.drop_last() =~= e0); assert(__s0@.take(__i0 as int).last() == __s0@[__i0 as int - 1]); }
+//@@ afterloop 0
+    proof { assert(__s0@.take(__s0@.len() as int) =~= __s0@); }
+//@@ end
 
 pub struct ContinuityStreamCache { pub filler: u8 }
 impl ContinuityStreamCache {
